@@ -286,6 +286,10 @@ func writeGroupIni(cmd *Command, group *Group, namespace string, writer io.Write
 				break
 			}
 
+			if kind == reflect.Ptr {
+				kind = val.Type().Elem().Kind()
+			}
+
 			v, _ := convertToString(val, option.tag)
 
 			writeOption(writer, oname, kind, "", v, commentOption, option.iniQuote)
@@ -302,6 +306,12 @@ func writeGroupIni(cmd *Command, group *Group, namespace string, writer io.Write
 }
 
 func writeOption(writer io.Writer, optionName string, optionType reflect.Kind, optionKey string, optionValue string, commentOption bool, forceQuote bool) {
+	// the reader trims blanks around a value and unquotes a value that
+	// starts with a quote: such strings only survive when written quoted
+	if optionType == reflect.String && (strings.TrimSpace(optionValue) != optionValue || strings.HasPrefix(optionValue, "\"")) {
+		forceQuote = true
+	}
+
 	if forceQuote || (optionType == reflect.String && !isPrint(optionValue)) {
 		optionValue = strconv.Quote(optionValue)
 	}
